@@ -661,6 +661,18 @@ class EIntEnum(enum.IntEnum):
     y = -3
 
 
+class EColl(enum.Enum):
+    """members whose values collide once a text value is read as JSON / a Python literal: the value 1 and the text "1" ...
+    (the unmarshaller must look the raw value up before the loaded one: seeded change C01-r3m1 reversed that order)"""
+    one = 1
+    text_one = "1"
+    half = 1.5
+    text_half = "1.5"
+    nul = "null"
+    lst = "[1]"
+    text_true = "true"
+
+
 def gen_td(rng):
     days = rng.choice([0, 0, 1, 6, 7, 8, 14, 21, 365, 999999999, -1, -7, -8, -999999999, rng.randint(-1000, 1000),
                        7 * rng.randint(-10 ** 8, 10 ** 8)])
@@ -716,12 +728,13 @@ SCALARS = {
     D.date: gen_date, D.datetime: gen_datetime, D.time: gen_time, D.timedelta: gen_td,
     EInt: lambda rng: rng.choice(list(EInt)), EStr: lambda rng: rng.choice(list(EStr)),
     ESMix: lambda rng: rng.choice(list(ESMix)), EIntEnum: lambda rng: rng.choice(list(EIntEnum)),
+    EColl: lambda rng: rng.choice(list(EColl)),
 }
 LIT1 = typing.Literal[1, "a", "b"]
 LIT2 = typing.Literal["1", "null", None, True]
 LITS = {LIT1: [1, "a", "b"], LIT2: ["1", "null", None, True]}
 HASHABLE_SCALARS = [int, bool, float, str, decimal.Decimal, fractions.Fraction, uuid.UUID, pathlib.PurePosixPath, D.date,
-                    D.datetime, D.timedelta, EInt, EStr, ESMix, EIntEnum]
+                    D.datetime, D.timedelta, EInt, EStr, ESMix, EIntEnum, EColl]
 
 ADV_SRC = '''
 import typing, collections, dataclasses, datetime, decimal, enum, fractions, pathlib, uuid
@@ -876,6 +889,7 @@ def keyword_text_cases():
         (L(EKw), list(EKw)),
         (L(EStr), list(EStr)),
         (L(ESMix), list(ESMix)),
+        (L(EColl), list(EColl)),
     ]
     out = []
     for leaf, values in leaves:
@@ -1410,7 +1424,7 @@ def eval_case(c):
     m = adv_module()
     ns = dict(m.__dict__)
     ns.update({"re": re, "D": D, "EInt": EInt, "EStr": EStr, "ESMix": ESMix, "EIntEnum": EIntEnum, "LIT1": LIT1, "LIT2": LIT2,
-               "EKw": EKw, "LITKW": LITKW})
+               "EKw": EKw, "LITKW": LITKW, "EColl": EColl})
     ann = eval(c["type"], ns)
     v = eval(c["value"], ns)
     return ann, spec_of_ann(ann), v
@@ -1562,7 +1576,7 @@ def search(run: lib.Run, broken):
         push(check_value(ann_of(spec), spec, v, stats, {"source": "python-level-generator"}))
     # every scalar x every string that reads like another scalar, in two-member unions (both orders)
     scal = [int, float, str, decimal.Decimal, fractions.Fraction, uuid.UUID, pathlib.PurePosixPath, D.date, D.datetime,
-            D.time, D.timedelta, bool, EInt, EStr, ESMix, EIntEnum, re.Pattern]
+            D.time, D.timedelta, bool, EInt, EStr, ESMix, EIntEnum, EColl, re.Pattern]
     pairs = [(a, b) for a in scal for b in scal if a is not b]
     rng.shuffle(pairs)
     for a, b in pairs[: run.budget(60, len(pairs))]:
